@@ -1,9 +1,11 @@
 ---------------------------- MODULE Symbols_MC ----------------------------
 (* Exhaustive check of the design: every program text up to MaxLen statements over the alphabet of a    *)
-(* focus area.  State = the text so far + the machine state of pass 1 after it.  Every invariant is     *)
+(* focus area, for the machine of the pinned tree (devs = PINNED) and the repaired one (devs = {}).      *)
+(* State = the text so far + the machine state of pass 1 after it.  Every invariant is                  *)
 (* evaluated on the completed text (open macro expansions and sections closed).                        *)
 EXTENDS Symbols
-CONSTANTS MaxLen, MaxDepth, Focus, CaseModes, Devs
+CONSTANTS MaxLen, MaxDepth, Focus, CaseModes, DevSets,
+          CheckConst    \* TRUE: demand "a constant never changes" also of the machine of the pinned tree
 
 VARIABLES prog, cs, s
 vars == <<prog, cs, s>>
@@ -45,7 +47,7 @@ Alphabet(i) ==
           [k |-> "REF", nm |-> N("sym"), q |-> NoQ], [k |-> "REF", nm |-> N("sym"), q |-> QGlob],
           [k |-> "TDEF", t |-> "-"], [k |-> "TREF", t |-> "-", c |-> 1]}
 
-Init == prog = <<>> /\ cs \in CaseModes /\ s = InitS(cs, Devs)
+Init == prog = <<>> /\ cs \in CaseModes /\ \E D \in DevSets : s = InitS(cs, D)
 
 Next == /\ Len(prog) < MaxLen
         /\ \E st \in Alphabet(Len(prog) + 1) :
@@ -68,14 +70,14 @@ Closed(p) ==
 DevFree(p) ==
   LET A == Analyse(cs, p)
       D == Deviations(A, Entries(A))
-  IN D \cap Devs = {}
+  IN D \cap s.devs = {}
 
 \* ---- the property ------------------------------------------------------------------------------------
 \* the machine (all passes) and the manual agree: errors, and every word the manual is definite about
 LookupAgreesWithManual ==
   LET p == Closed(prog)
       X == Expect(cs, p)
-      R == RunAll(cs, Devs, p)
+      R == RunAll(cs, s.devs, p)
   IN (~X.silent /\ DevFree(p)) =>
        /\ X.err => R.errs > 0
        /\ R.errs > 0 => X.err \/ X.mayErr
@@ -86,13 +88,17 @@ LookupAgreesWithManual ==
 ExtraPassAgrees ==
   LET p == Closed(prog)
       X == Expect(cs, p)
-      R == RunExtra(cs, Devs, p)
+      R == RunExtra(cs, s.devs, p)
   IN (~X.silent /\ DevFree(p) /\ ~X.err /\ ~X.mayErr) =>
        /\ R.errs = 0 /\ ~R.repass
        /\ \A k \in 1..Len(X.words) : X.words[k].definite => R.out[k].v = X.words[k].v
 
 \* the pass loop needs at most two passes for these programs
-ConvergesInTwo == LET R == RunAll(cs, Devs, Closed(prog)) IN R.errs > 0 \/ (~R.repass /\ R.pass <= 2)
+\* (the pinned machine does not converge at all after a POPV into a constant: the next pass re-defines the constant
+\* with its own value, sees a difference and asks for another pass - part of the popv_const deviation)
+ConvergesInTwo == LET p == Closed(prog) R == RunAll(cs, s.devs, p) IN DevFree(p) => (R.errs > 0 \/ (~R.repass /\ R.pass <= 2))
+\* a stack exists exactly as long as it holds a value
+StacksNonEmpty == \A sn \in DOMAIN s.stacks : s.stacks[sn] # <<>>
 
 \* the section stack mirrors the nesting of the text (while no structural error happened)
 StackMirrorsText ==
@@ -102,7 +108,8 @@ StackMirrorsText ==
                 /\ (s.mom = GLOB) = (s.stk = <<>>)
 
 \* an EQU constant / label can never change within a pass (action property)
-ConstStep == \A key \in DOMAIN s.tab : (s.tab[key].def /\ ~s.tab[key].chg) =>
+ConstStep == (CheckConst \/ "popv_const" \notin s.devs) =>
+             \A key \in DOMAIN s.tab : (s.tab[key].def /\ ~s.tab[key].chg) =>
                  (s'.tab[key].val = s.tab[key].val /\ s'.tab[key].def /\ ~s'.tab[key].chg)
 ConstNeverChanges == [][ConstStep]_vars
 \* a definition of an existing constant is an error; mixing is an error
